@@ -71,7 +71,9 @@ func coqCase(name string, c *Case, o *Obs) string {
 		}
 	}
 	fmt.Fprintf(&sb, "  k_inspections := [%s];\n", strings.Join(insp, ";\n     "))
-	fmt.Fprintf(&sb, "  k_trace := %s |}.\n", hx.List(o.Trace, func(s *ObsStep) string { return "\n     " + coqStep(s, d) }))
+	fmt.Fprintf(&sb, "  k_trace := %s;\n", hx.List(o.Trace, func(s *ObsStep) string { return "\n     " + coqStep(s, d) }))
+	fmt.Fprintf(&sb, "  k_exec := %s; k_msg_trigger := %s; k_start := %s; k_history := %s |}.\n", hx.Bool(o.InFragment), hx.Bool(o.MsgTrigger),
+		hx.N(c.Start), hx.List(o.Accepted, hx.Bool))
 	return sb.String()
 }
 
@@ -172,6 +174,9 @@ func stats(res *hx.Result, c *Case, obs *Obs) {
 	}
 	if obs.NResumedExits > 0 {
 		res.Dist("left_a_wait>0")
+	}
+	if obs.InFragment {
+		res.Dist("engine_replayed")
 	}
 	for _, k := range hx.SortedKeys(obs.SaverTypes) {
 		res.Dist("saved_by=" + k)
